@@ -248,3 +248,1439 @@ Proof.
   set (st := snd (run concat_next concat_head concat_stop ops (concat_init a b))) in *.
   apply concat_done_drains. unfold concat_stop. destruct (c_once st) eqn:E; [apply Hok; exact E | reflexivity].
 Qed.
+
+(* ---------------------------------------------------------------------------------------- *)
+(* Merge *)
+
+(* the list algorithm: smaller head first, equal heads are emitted once and both advance *)
+Fixpoint merge_lists (a : list N) : list N -> list N :=
+  fix aux (b : list N) : list N :=
+    match a, b with
+    | [], _ => b
+    | _, [] => a
+    | x :: a', y :: b' =>
+      match x ?= y with
+      | Lt => x :: merge_lists a' b
+      | Gt => y :: aux b'
+      | Eq => x :: merge_lists a' b'
+      end
+    end.
+
+Lemma merge_lists_nil_r : forall a, merge_lists a [] = a.
+Proof. destruct a; reflexivity. Qed.
+Lemma merge_lists_nil_l : forall b, merge_lists [] b = b.
+Proof. destruct b; reflexivity. Qed.
+Lemma merge_lists_cons : forall x a y b,
+  merge_lists (x :: a) (y :: b) =
+  match x ?= y with
+  | Lt => x :: merge_lists a (y :: b)
+  | Gt => y :: merge_lists (x :: a) b
+  | Eq => x :: merge_lists a b
+  end.
+Proof. reflexivity. Qed.
+
+Lemma drains_same_step : forall St (nx : St -> res * St) st0 st1 out,
+  nx st0 = nx st1 -> drains_to nx st1 out -> drains_to nx st0 out.
+Proof.
+  intros St nx st0 st1 out H Hd n. specialize (Hd n). destruct n as [|n]; simpl in *; [exact Hd|].
+  rewrite H. exact Hd.
+Qed.
+
+(* an initialised merge state over error-free remainders: the pending lists are
+   (current value :: rest of the iterator) on each side *)
+Definition side (h : bool) (c : option N) (l : list N) (A : list N) : Prop :=
+  (h = true /\ exists x, c = Some x /\ A = x :: l) \/ (h = false /\ l = [] /\ A = []).
+
+Ltac side_has := left; split; [reflexivity|]; eexists; split; reflexivity.
+Ltac side_none := right; repeat split; reflexivity.
+
+Lemma merge_state_drains : forall m A B,
+  (length A + length B <= m)%nat ->
+  forall l1 l2 k1 k2 c1 c2 h1 h2,
+  side h1 c1 l1 A -> side h2 c2 l2 B ->
+  drains_to merge_next
+    (mkMerge (open_src (map Item l1) k1) (open_src (map Item l2) k2) c1 c2 h1 h2 true)
+    (map ROk (merge_lists A B)).
+Proof.
+  induction m as [|m IH]; intros A B Hm l1 l2 k1 k2 c1 c2 h1 h2 S1 S2.
+  - destruct A; destruct B; simpl in Hm; try lia.
+    destruct S1 as [[_ [x [_ Hx]]]|[Hh1 [Hl1 _]]]; [discriminate|].
+    destruct S2 as [[_ [y [_ Hy]]]|[Hh2 [Hl2 _]]]; [discriminate|].
+    subst. apply drains_done. reflexivity.
+  - destruct S1 as [[Hh1 [x [Hc1 HA]]]|[Hh1 [Hl1 HA]]];
+    destruct S2 as [[Hh2 [y [Hc2 HB]]]|[Hh2 [Hl2 HB]]]; subst.
+    + (* both sides have a value *)
+      rewrite merge_lists_cons. destruct (x ?= y) eqn:E.
+      * (* equal: both advance *)
+        destruct l1 as [|x1 l1']; destruct l2 as [|y1 l2']; simpl;
+          (eapply drains_step; [unfold merge_next; simpl; rewrite E; reflexivity|]).
+        -- apply (IH [] [] ltac:(simpl in *; lia) [] []); [side_none | side_none].
+        -- apply (IH [] (y1 :: l2') ltac:(simpl in *; lia) [] l2'); [side_none | side_has].
+        -- apply (IH (x1 :: l1') [] ltac:(simpl in *; lia) l1' []); [side_has | side_none].
+        -- apply (IH (x1 :: l1') (y1 :: l2') ltac:(simpl in *; lia) l1' l2'); [side_has | side_has].
+      * destruct l1 as [|x1 l1']; simpl;
+          (eapply drains_step; [unfold merge_next; simpl; rewrite E; reflexivity|]).
+        -- apply (IH [] (y :: l2) ltac:(simpl in *; lia) [] l2); [side_none | side_has].
+        -- apply (IH (x1 :: l1') (y :: l2) ltac:(simpl in *; lia) l1' l2); [side_has | side_has].
+      * destruct l2 as [|y1 l2']; simpl;
+          (eapply drains_step; [unfold merge_next; simpl; rewrite E; reflexivity|]).
+        -- apply (IH (x :: l1) [] ltac:(simpl in *; lia) l1 []); [side_has | side_none].
+        -- apply (IH (x :: l1) (y1 :: l2') ltac:(simpl in *; lia) l1 l2'); [side_has | side_has].
+    + (* only side 1 *)
+      rewrite merge_lists_nil_r.
+      destruct l1 as [|x1 l1']; simpl; (eapply drains_step; [reflexivity|]).
+      * apply (IH [] [] ltac:(simpl in *; lia) [] []); [side_none | side_none].
+      * replace (ROk x1 :: map ROk l1') with (map ROk (merge_lists (x1 :: l1') [])) by reflexivity.
+        apply (IH (x1 :: l1') [] ltac:(simpl in *; lia) l1' []); [side_has | side_none].
+    + (* only side 2 *)
+      rewrite merge_lists_nil_l.
+      destruct l2 as [|y1 l2']; simpl; (eapply drains_step; [reflexivity|]).
+      * apply (IH [] [] ltac:(simpl in *; lia) [] []); [side_none | side_none].
+      * replace (ROk y1 :: map ROk l2') with (map ROk (merge_lists [] (y1 :: l2'))) by reflexivity.
+        apply (IH [] (y1 :: l2') ltac:(simpl in *; lia) [] l2'); [side_none | side_has].
+    + apply drains_done. reflexivity.
+Qed.
+
+(* merge_spec: on error-free inputs the merged iterator yields merge_lists *)
+Theorem merge_clean_spec : forall la lb,
+  drains_to merge_next (merge_init (map Item la) (map Item lb)) (map ROk (merge_lists la lb)).
+Proof.
+  intros la lb.
+  set (h1 := match la with [] => false | _ => true end).
+  set (h2 := match lb with [] => false | _ => true end).
+  set (st1 := mkMerge (open_src (map Item (tl la)) 0) (open_src (map Item (tl lb)) 0)
+                      (hd_error la) (hd_error lb) h1 h2 true).
+  apply (drains_same_step _ merge_next _ st1).
+  - unfold merge_next at 1. destruct la as [|x la']; destruct lb as [|y lb']; reflexivity.
+  - apply (merge_state_drains (length la + length lb) la lb (le_n _)).
+    + destruct la as [|x la']; [right; repeat split; reflexivity
+                               | left; split; [reflexivity|]; eexists; split; reflexivity].
+    + destruct lb as [|y lb']; [right; repeat split; reflexivity
+                               | left; split; [reflexivity|]; eexists; split; reflexivity].
+Qed.
+
+(* properties of the list algorithm *)
+
+Definition sortedN (l : list N) : Prop := StronglySorted N.le l.
+
+Lemma merge_lists_In : forall a b x, In x (merge_lists a b) -> In x a \/ In x b.
+Proof.
+  induction a as [|p a IHa]; intros b x H.
+  - rewrite merge_lists_nil_l in H. now right.
+  - induction b as [|q b IHb].
+    + rewrite merge_lists_nil_r in H. now left.
+    + rewrite merge_lists_cons in H. destruct (p ?= q) eqn:E; simpl in H; destruct H as [H|H].
+      * left; left; exact H.
+      * apply IHa in H. destruct H; [left; right; assumption | right; right; assumption].
+      * left; left; exact H.
+      * apply IHa in H. destruct H; [left; right; assumption | right; assumption].
+      * right; left; exact H.
+      * apply IHb in H. destruct H; [left; assumption | right; right; assumption].
+Qed.
+
+Theorem merge_lists_sorted : forall a b, sortedN a -> sortedN b -> sortedN (merge_lists a b).
+Proof.
+  induction a as [|p a IHa]; intros b Ha Hb.
+  - now rewrite merge_lists_nil_l.
+  - induction b as [|q b IHb].
+    + now rewrite merge_lists_nil_r.
+    + rewrite merge_lists_cons. inversion Ha as [|? ? Ha' Hpa]; subst. inversion Hb as [|? ? Hb' Hqb]; subst.
+      destruct (p ?= q) eqn:E.
+      * apply N.compare_eq in E. subst q. constructor; [apply IHa; assumption|].
+        apply Forall_forall. intros z Hz. apply merge_lists_In in Hz. rewrite Forall_forall in Hpa, Hqb.
+        destruct Hz; auto.
+      * rewrite N.compare_lt_iff in E. constructor; [apply IHa; assumption|].
+        apply Forall_forall. intros z Hz. apply merge_lists_In in Hz. rewrite Forall_forall in Hpa, Hqb.
+        destruct Hz as [Hz|[Hz|Hz]]; [auto | subst; lia | specialize (Hqb z Hz); lia].
+      * rewrite N.compare_gt_iff in E. constructor; [apply IHb; assumption|].
+        apply Forall_forall. intros z Hz. apply merge_lists_In in Hz. rewrite Forall_forall in Hpa, Hqb.
+        destruct Hz as [[Hz|Hz]|Hz]; [subst; lia | specialize (Hpa z Hz); lia | auto].
+Qed.
+
+Lemma count_sorted_lt : forall x y l, sortedN (y :: l) -> x < y -> count_occ N.eq_dec (y :: l) x = 0%nat.
+Proof.
+  intros x y l Hs Hlt. inversion Hs as [|? ? _ Hall]; subst. rewrite Forall_forall in Hall.
+  apply count_occ_not_In. intros [H|H]; [lia | specialize (Hall x H); lia].
+Qed.
+
+(* every value occurs max(multiplicity in a, multiplicity in b) times *)
+Theorem merge_lists_count : forall a b x, sortedN a -> sortedN b ->
+  count_occ N.eq_dec (merge_lists a b) x = Nat.max (count_occ N.eq_dec a x) (count_occ N.eq_dec b x).
+Proof.
+  induction a as [|p a IHa]; intros b x Ha Hb.
+  - rewrite merge_lists_nil_l. reflexivity.
+  - induction b as [|q b IHb].
+    + rewrite merge_lists_nil_r. now rewrite Nat.max_0_r.
+    + rewrite merge_lists_cons.
+      pose proof Ha as Ha0. pose proof Hb as Hb0.
+      inversion Ha as [|? ? Ha' Hpa]; subst. inversion Hb as [|? ? Hb' Hqb]; subst.
+      destruct (p ?= q) eqn:E.
+      * apply N.compare_eq in E. subst q.
+        destruct (N.eq_dec p x) as [Hpx|Hpx].
+        -- subst x. rewrite !(count_occ_cons_eq N.eq_dec _ (eq_refl p)).
+           rewrite (IHa b p Ha' Hb'). now rewrite Nat.succ_max_distr.
+        -- rewrite !(count_occ_cons_neq N.eq_dec _ Hpx). apply IHa; assumption.
+      * rewrite N.compare_lt_iff in E.
+        destruct (N.eq_dec p x) as [Hpx|Hpx].
+        -- subst x. rewrite !(count_occ_cons_eq N.eq_dec _ (eq_refl p)).
+           rewrite (IHa (q :: b) p Ha' Hb0). rewrite (count_sorted_lt p q b Hb0 E).
+           now rewrite !Nat.max_0_r.
+        -- rewrite !(count_occ_cons_neq N.eq_dec _ Hpx). apply IHa; assumption.
+      * rewrite N.compare_gt_iff in E.
+        destruct (N.eq_dec q x) as [Hqx|Hqx].
+        -- subst x. rewrite !(count_occ_cons_eq N.eq_dec _ (eq_refl q)).
+           rewrite (IHb Hb'). rewrite (count_sorted_lt q p a Ha0 E). reflexivity.
+        -- rewrite !(count_occ_cons_neq N.eq_dec _ Hqx). apply IHb; assumption.
+Qed.
+
+(* merge_sorted_perm: inputs without a common value are only rearranged *)
+Theorem merge_lists_perm : forall a b, (forall x, In x a -> ~ In x b) -> Permutation (merge_lists a b) (a ++ b).
+Proof.
+  induction a as [|p a IHa]; intros b Hd.
+  - rewrite merge_lists_nil_l. apply Permutation_refl.
+  - induction b as [|q b IHb].
+    + rewrite merge_lists_nil_r, app_nil_r. apply Permutation_refl.
+    + rewrite merge_lists_cons. destruct (p ?= q) eqn:E.
+      * apply N.compare_eq in E. subst q. exfalso. apply (Hd p); now left.
+      * simpl. apply perm_skip. apply IHa. intros x Hx. apply Hd. now right.
+      * apply Permutation_cons_app. apply IHb.
+        intros x Hx Hb. apply (Hd x Hx). now right.
+Qed.
+
+Theorem merge_sorted_perm : forall la lb,
+  sortedN la -> sortedN lb -> (forall x, In x la -> ~ In x lb) ->
+  exists out, drains_to merge_next (merge_init (map Item la) (map Item lb)) (map ROk out)
+              /\ sortedN out /\ Permutation out (la ++ lb).
+Proof.
+  intros la lb Ha Hb Hd. exists (merge_lists la lb). split; [apply merge_clean_spec|].
+  split; [now apply merge_lists_sorted | now apply merge_lists_perm].
+Qed.
+
+Theorem merge_sorted_spec : forall la lb, sortedN la -> sortedN lb ->
+  exists out, drains_to merge_next (merge_init (map Item la) (map Item lb)) (map ROk out)
+              /\ sortedN out
+              /\ forall x, count_occ N.eq_dec out x = Nat.max (count_occ N.eq_dec la x) (count_occ N.eq_dec lb x).
+Proof.
+  intros la lb Ha Hb. exists (merge_lists la lb). split; [apply merge_clean_spec|].
+  split; [now apply merge_lists_sorted | intro x; now apply merge_lists_count].
+Qed.
+
+(* no scripted error is ever swallowed by Merge: every call reports exactly the (non-done)
+   errors it consumed from its inputs *)
+Definition res_err (r : res) : nat :=
+  match r with R _ (Some e) => if is_done e then O else 1%nat | _ => O end.
+Fixpoint nerr (l : list ev) : nat :=
+  match l with
+  | [] => O
+  | Item _ :: r => nerr r
+  | Err c :: r => ((if is_done c then O else 1) + nerr r)%nat
+  end.
+
+Lemma src_next_errs : forall s,
+  nerr (live s) = (nerr (live (snd (src_next s))) + res_err (fst (src_next s)))%nat.
+Proof.
+  intro s. unfold src_next, live, put. destruct (sstopped s) eqn:Es; simpl.
+  - rewrite Es. reflexivity.
+  - destruct (evs s) as [|[x|c] r]; simpl; try lia.
+Qed.
+
+Definition merge_errs (st : merge_st) : nat := (nerr (live (m_1 st)) + nerr (live (m_2 st)))%nat.
+
+Lemma merge_initialize_errs : forall st,
+  merge_errs st = (merge_errs (snd (merge_initialize st))
+                   + match fst (merge_initialize st) with Some e => res_err (RErr e) | None => O end)%nat.
+Proof.
+  intro st. unfold merge_initialize, merge_errs. destruct (m_init st); [simpl; lia|].
+  pose proof (src_next_errs (m_1 st)) as H1. destruct (src_next (m_1 st)) as [[v1 e1] s1]. simpl in H1.
+  pose proof (src_next_errs (m_2 st)) as H2.
+  destruct e1 as [e|]; [destruct (is_done e) eqn:Ed|]; simpl; try (rewrite Ed in *; simpl; lia).
+  - destruct (src_next (m_2 st)) as [[v2 e2] s2]. simpl in H2.
+    destruct e2 as [e'|]; [destruct (is_done e') eqn:Ed'|]; simpl; try rewrite Ed' in *; simpl; lia.
+  - destruct (src_next (m_2 st)) as [[v2 e2] s2]. simpl in H2.
+    destruct e2 as [e'|]; [destruct (is_done e') eqn:Ed'|]; simpl; try rewrite Ed' in *; simpl; lia.
+Qed.
+
+Lemma merge_from1_errs : forall st,
+  merge_errs st = (merge_errs (snd (merge_from1 st)) + res_err (fst (merge_from1 st)))%nat.
+Proof.
+  intro st. unfold merge_from1, merge_errs.
+  pose proof (src_next_errs (m_1 st)) as H1. destruct (src_next (m_1 st)) as [[v1 e1] s1]. simpl in H1.
+  destruct e1 as [e|]; [destruct (is_done e) eqn:Ed|]; simpl; try rewrite Ed in *; simpl; lia.
+Qed.
+Lemma merge_from2_errs : forall st,
+  merge_errs st = (merge_errs (snd (merge_from2 st)) + res_err (fst (merge_from2 st)))%nat.
+Proof.
+  intro st. unfold merge_from2, merge_errs.
+  pose proof (src_next_errs (m_2 st)) as H2. destruct (src_next (m_2 st)) as [[v2 e2] s2]. simpl in H2.
+  destruct e2 as [e|]; [destruct (is_done e) eqn:Ed|]; simpl; try rewrite Ed in *; simpl; lia.
+Qed.
+
+Theorem merge_next_errs : forall st,
+  merge_errs st = (merge_errs (snd (merge_next st)) + res_err (fst (merge_next st)))%nat.
+Proof.
+  intro st0. unfold merge_next.
+  pose proof (merge_initialize_errs st0) as Hi. destruct (merge_initialize st0) as [ie st]. simpl in Hi.
+  destruct ie as [e|]; [simpl in *; lia|]. rewrite Hi. rewrite Nat.add_0_r. clear Hi st0.
+  destruct (negb (m_h1 st) && negb (m_h2 st)); [simpl; lia|].
+  destruct (negb (m_h1 st)); [apply merge_from2_errs|].
+  destruct (negb (m_h2 st)); [apply merge_from1_errs|].
+  destruct (optN (m_c1 st) ?= optN (m_c2 st)); [|apply merge_from1_errs|apply merge_from2_errs].
+  unfold merge_errs.
+  pose proof (src_next_errs (m_1 st)) as H1. destruct (src_next (m_1 st)) as [[v1 e1] s1]. simpl in H1.
+  pose proof (src_next_errs (m_2 st)) as H2.
+  destruct e1 as [e|]; [destruct (is_done e) eqn:Ed|]; simpl; try (rewrite Ed in *; simpl; lia).
+  - destruct (src_next (m_2 st)) as [[v2 e2] s2]. simpl in H2.
+    destruct e2 as [e'|]; [destruct (is_done e') eqn:Ed'|]; simpl; try rewrite Ed' in *; simpl; lia.
+  - destruct (src_next (m_2 st)) as [[v2 e2] s2]. simpl in H2.
+    destruct e2 as [e'|]; [destruct (is_done e') eqn:Ed'|]; simpl; try rewrite Ed' in *; simpl; lia.
+Qed.
+
+(* over a whole sequence of calls: errors reported = errors consumed *)
+Fixpoint final {St} (nx : St -> res * St) (n : nat) (st : St) : St :=
+  match n with O => st | S k => final nx k (snd (nx st)) end.
+Theorem merge_error_conservation : forall n st,
+  merge_errs st = (merge_errs (final merge_next n st)
+                   + fold_right (fun r acc => (res_err r + acc)%nat) O (nexts merge_next n st))%nat.
+Proof.
+  induction n as [|n IH]; intro st; simpl; [lia|].
+  pose proof (merge_next_errs st) as H. destruct (merge_next st) as [r st1]. simpl in *.
+  rewrite (IH st1) in H. lia.
+Qed.
+
+Lemma merge_head_unsupported : forall st, merge_head st = (RErr EHeadUnsupported, st).
+Proof. reflexivity. Qed.
+
+(* the documented contract "after Stop, Next returns ErrIteratorDone" does NOT hold for Merge:
+   the prefetched values are still handed out (finding merge_yields_after_stop) *)
+Definition merge_stop_then_done_statement : Prop :=
+  forall a b ops,
+    drains_to merge_next (merge_stop (snd (run merge_next merge_head merge_stop ops (merge_init a b)))) [].
+Theorem merge_stop_then_done_refuted : ~ merge_stop_then_done_statement.
+Proof.
+  intro H. specialize (H [Item 1; Item 2] [Item 3] [ONext] 1%nat). vm_compute in H. discriminate.
+Qed.
+(* what does hold: once the prefetched values are out, it is done, and nothing is read from the inputs *)
+Ltac mstop_step :=
+  unfold merge_next, merge_initialize; simpl;
+  repeat match goal with
+         | H : m_init _ = _ |- _ => rewrite H
+         | H : m_h1 _ = _ |- _ => rewrite H
+         | H : m_h2 _ = _ |- _ => rewrite H
+         | H : (optN _ ?= optN _) = _ |- _ => rewrite H
+         end; simpl;
+  repeat match goal with
+         | H : m_h1 _ = _ |- _ => rewrite H
+         | H : m_h2 _ = _ |- _ => rewrite H
+         | H : (optN _ ?= optN _) = _ |- _ => rewrite H
+         end; simpl;
+  repeat match goal with
+         | H : (optN _ ?= optN _) = _ |- _ => rewrite H
+         end; reflexivity.
+Theorem merge_stop_partial : forall st,
+  m_init st = true ->
+  exists out, drains_to merge_next (merge_stop st) out /\ (length out <= 2)%nat
+              /\ live (m_1 (merge_stop st)) = [] /\ live (m_2 (merge_stop st)) = [].
+Proof.
+  intros st Hi. unfold merge_stop.
+  destruct (m_h1 st) eqn:E1; destruct (m_h2 st) eqn:E2.
+  - destruct (optN (m_c1 st) ?= optN (m_c2 st)) eqn:Ec.
+    + exists [R (m_c1 st) None]. split; [|split; [simpl; lia | split; reflexivity]].
+      eapply drains_step; [mstop_step|].
+      apply drains_done. reflexivity.
+    + exists [R (m_c1 st) None; R (m_c2 st) None]. split; [|split; [simpl; lia | split; reflexivity]].
+      eapply drains_step; [mstop_step|].
+      eapply drains_step; [reflexivity|]. apply drains_done. reflexivity.
+    + exists [R (m_c2 st) None; R (m_c1 st) None]. split; [|split; [simpl; lia | split; reflexivity]].
+      eapply drains_step; [mstop_step|].
+      eapply drains_step; [reflexivity|]. apply drains_done. reflexivity.
+  - exists [R (m_c1 st) None]. split; [|split; [simpl; lia | split; reflexivity]].
+    eapply drains_step; [mstop_step|].
+    apply drains_done. reflexivity.
+  - exists [R (m_c2 st) None]. split; [|split; [simpl; lia | split; reflexivity]].
+    eapply drains_step; [mstop_step|].
+    apply drains_done. reflexivity.
+  - exists []. split; [|split; [simpl; lia | split; reflexivity]].
+    apply drains_done. mstop_step.
+Qed.
+
+(* ---------------------------------------------------------------------------------------- *)
+(* filters with a deferred error: NewFilteredIterator / ConditionsFilteredTupleKeyIterator *)
+
+Lemma live_put : forall s l, live (put s l) = if sstopped s then [] else l.
+Proof. intros s l. unfold live, put. destruct (sstopped s) eqn:E; simpl; [now rewrite E | reflexivity]. Qed.
+Lemma put_put : forall s l, put (put s l) l = put s l.
+Proof. intros s l. unfold put. destruct (sstopped s) eqn:E; simpl; [now rewrite E | reflexivity]. Qed.
+Lemma put_live : forall s, put s (live s) = s.
+Proof. intro s. unfold put, live. destruct s as [l b k]. simpl. destruct b; reflexivity. Qed.
+
+Section CondFilterProofs.
+  Variable f : N -> verdict.
+
+  Fixpoint cf_out (l : list ev) (le : option N) (ov : bool) : list res :=
+    match l with
+    | [] => match le with Some e => if ov then [] else [RErr e] | None => [] end
+    | Err e :: r => RErr e :: cf_out r le ov
+    | Item x :: r =>
+      match f x with
+      | VErr e => cf_out r (Some e) ov
+      | VReject => cf_out r le ov
+      | VPass => ROk x :: cf_out r le true
+      end
+    end.
+
+  Theorem cf_drains : forall l le ov k once,
+    drains_to (cf_next f) (mkCf (open_src l k) le ov once) (cf_out l le ov).
+  Proof.
+    induction l as [|e r IH]; intros le ov k once.
+    - simpl. destruct le as [c|].
+      + destruct ov.
+        * apply drains_done. reflexivity.
+        * eapply drains_step; [reflexivity|]. apply drains_done. reflexivity.
+      + apply drains_done. reflexivity.
+    - destruct e as [x|c].
+      + simpl. destruct (f x) eqn:Ef.
+        * eapply drains_step; [unfold cf_next; simpl; rewrite Ef; reflexivity|]. apply IH.
+        * eapply drains_same_step; [|apply (IH le ov k once)]. unfold cf_next; simpl; rewrite Ef; reflexivity.
+        * eapply drains_same_step; [|apply (IH (Some e) ov k once)]. unfold cf_next; simpl; rewrite Ef; reflexivity.
+      + simpl. eapply drains_step; [reflexivity|]. apply IH.
+  Qed.
+
+  Definition passes (x : N) : bool := match f x with VPass => true | _ => false end.
+  Definition last_err (xs : list N) (le : option N) : option N :=
+    fold_left (fun acc x => match f x with VErr e => Some e | _ => acc end) xs le.
+
+  Lemma last_err_cons : forall x r le,
+    last_err (x :: r) le = last_err r (match f x with VErr e => Some e | _ => le end).
+  Proof. reflexivity. Qed.
+
+  Lemma cf_out_clean : forall xs le ov,
+    cf_out (map Item xs) le ov =
+    map ROk (filter passes xs)
+    ++ (if ov || existsb passes xs then []
+        else match last_err xs le with Some e => [RErr e] | None => [] end).
+  Proof.
+    induction xs as [|x r IH]; intros le ov.
+    - simpl. rewrite orb_false_r. destruct le; destruct ov; reflexivity.
+    - rewrite last_err_cons. cbn [map cf_out filter existsb].
+      assert (Hp : passes x = match f x with VPass => true | _ => false end) by reflexivity.
+      rewrite Hp. destruct (f x) eqn:Ef.
+      + rewrite IH. simpl. now rewrite orb_true_r.
+      + rewrite IH. reflexivity.
+      + rewrite IH. reflexivity.
+  Qed.
+
+  (* cond_filter_spec: the CODED behaviour on an error-free inner iterator.
+     The items that pass are yielded in order.  Condition-evaluation errors are swallowed:
+     ALL of them when at least one item passes (or passed before: onceValid); all but the LAST
+     one otherwise, which is reported once, after the last item, instead of ErrIteratorDone. *)
+  Theorem cond_filter_spec : forall xs k once,
+    drains_to (cf_next f) (mkCf (open_src (map Item xs) k) None false once)
+      (map ROk (filter passes xs)
+       ++ (if existsb passes xs then []
+           else match last_err xs None with Some e => [RErr e] | None => [] end)).
+  Proof.
+    intros xs k once. pose proof (cf_out_clean xs None false) as H. simpl in H. rewrite <- H.
+    apply cf_drains.
+  Qed.
+
+  Corollary cond_filter_swallows_all : forall xs, existsb passes xs = true ->
+    cf_out (map Item xs) None false = map ROk (filter passes xs).
+  Proof. intros xs H. rewrite cf_out_clean, H. simpl. now rewrite app_nil_r. Qed.
+  Corollary cond_filter_reports_last : forall xs, existsb passes xs = false ->
+    cf_out (map Item xs) None false = match last_err xs None with Some e => [RErr e] | None => [] end.
+  Proof.
+    intros xs H. rewrite cf_out_clean, H. simpl.
+    assert (Hf : filter passes xs = []).
+    { clear -H. induction xs as [|x r IH]; simpl in *; [reflexivity|].
+      apply orb_false_iff in H. destruct H as [H1 H2]. rewrite H1. auto. }
+    now rewrite Hf.
+  Qed.
+
+  (* an error of the inner iterator is never swallowed and surfaces at its position *)
+  Theorem cf_error_position : forall xs e r le ov,
+    cf_out (map Item xs ++ Err e :: r) le ov =
+    map ROk (filter passes xs) ++ RErr e :: cf_out r (last_err xs le) (ov || existsb passes xs).
+  Proof.
+    induction xs as [|x t IH]; intros e r le ov.
+    - simpl. now rewrite orb_false_r.
+    - rewrite last_err_cons. cbn [map app cf_out filter existsb].
+      assert (Hp : passes x = match f x with VPass => true | _ => false end) by reflexivity.
+      rewrite Hp. destruct (f x) eqn:Ef.
+      + rewrite IH. simpl. now rewrite orb_true_r.
+      + rewrite IH. reflexivity.
+      + rewrite IH. reflexivity.
+  Qed.
+
+  Lemma cf_head_loop_props : forall l le ov,
+    let '(r, l1, le1, ov1) := cf_head_loop f l le ov in
+    cf_head_loop f l1 le1 ov1 = (r, l1, le1, ov1)
+    /\ fst (fst (fst (cf_next_loop f l1 le1 ov1))) = r
+    /\ (l = [] -> l1 = []).
+  Proof.
+    induction l as [|e t IH]; intros le ov; simpl.
+    - destruct le as [c|]; [destruct ov|]; simpl; auto.
+    - destruct e as [x|c]; simpl.
+      + destruct (f x) eqn:Ef.
+        * simpl. rewrite Ef. repeat split; auto; try (intro Hnil; discriminate Hnil).
+        * specialize (IH le ov). destruct (cf_head_loop f t le ov) as [[[r l1] le1] ov1].
+          destruct IH as [H1 [H2 _]]. repeat split; auto; try (intro Hnil; discriminate Hnil).
+        * specialize (IH (Some e) ov). destruct (cf_head_loop f t (Some e) ov) as [[[r l1] le1] ov1].
+          destruct IH as [H1 [H2 _]]. repeat split; auto; try (intro Hnil; discriminate Hnil).
+      + repeat split; auto; try (intro Hnil; discriminate Hnil).
+  Qed.
+
+  Lemma cf_head_live : forall st,
+    live (cf_src (snd (cf_head f st))) =
+    snd (fst (fst (cf_head_loop f (live (cf_src st)) (cf_last st) (cf_valid st)))).
+  Proof.
+    intro st. unfold cf_head.
+    pose proof (cf_head_loop_props (live (cf_src st)) (cf_last st) (cf_valid st)) as P.
+    destruct (cf_head_loop f (live (cf_src st)) (cf_last st) (cf_valid st)) as [[[r l1] le1] ov1].
+    destruct P as [_ [_ P3]]. simpl. rewrite live_put. unfold live in *.
+    destruct (sstopped (cf_src st)); [symmetry; now apply P3 | reflexivity].
+  Qed.
+
+  (* Head is idempotent, and the following Next returns what Head showed *)
+  Theorem cf_head_idem : forall st, cf_head f (snd (cf_head f st)) = cf_head f st.
+  Proof.
+    intro st. pose proof (cf_head_live st) as HL. unfold cf_head at 1. rewrite HL. unfold cf_head.
+    pose proof (cf_head_loop_props (live (cf_src st)) (cf_last st) (cf_valid st)) as P.
+    destruct (cf_head_loop f (live (cf_src st)) (cf_last st) (cf_valid st)) as [[[r l1] le1] ov1].
+    destruct P as [P1 _]. simpl. rewrite P1. now rewrite put_put.
+  Qed.
+  Theorem cf_head_next_coherent : forall st, fst (cf_next f (snd (cf_head f st))) = fst (cf_head f st).
+  Proof.
+    intro st. pose proof (cf_head_live st) as HL. unfold cf_next. rewrite HL. unfold cf_head.
+    pose proof (cf_head_loop_props (live (cf_src st)) (cf_last st) (cf_valid st)) as P.
+    destruct (cf_head_loop f (live (cf_src st)) (cf_last st) (cf_valid st)) as [[[r l1] le1] ov1].
+    destruct P as [_ [P2 _]]. simpl in *.
+    destruct (cf_next_loop f l1 le1 ov1) as [[[r2 l2] le2] ov2]. simpl in *. exact P2.
+  Qed.
+
+  (* after Stop: the inner iterator is not read any more; the only thing Next can still
+     return before ErrIteratorDone is the pending deferred error *)
+  Theorem cf_stop_then : forall st, cf_once st = false ->
+    drains_to (cf_next f) (cf_stop st)
+      (match cf_last st with Some e => if cf_valid st then [] else [RErr e] | None => [] end).
+  Proof.
+    intros st Ho. unfold cf_stop. rewrite Ho.
+    destruct (cf_last st) as [e|] eqn:El; [destruct (cf_valid st) eqn:Ev|].
+    - apply drains_done. unfold cf_next. simpl. reflexivity.
+    - eapply drains_step; [unfold cf_next; simpl; reflexivity|]. apply drains_done. reflexivity.
+    - apply drains_done. unfold cf_next. simpl. reflexivity.
+  Qed.
+End CondFilterProofs.
+
+Lemma gf_head_unsupported : forall st, gf_head st = (RErr EHeadUnsupported, st).
+Proof. reflexivity. Qed.
+Lemma cf_stop_idem : forall st, cf_stop (cf_stop st) = cf_stop st.
+Proof. intro st. unfold cf_stop. destruct (cf_once st) eqn:E; simpl; [now rewrite E | reflexivity]. Qed.
+
+(* several filters: the first one that does not pass decides *)
+Lemma apply_filters_pass : forall fs x,
+  apply_filters fs x = VPass <-> Forall (fun g => g x = VPass) fs.
+Proof.
+  induction fs as [|g r IH]; intro x; simpl.
+  - split; [constructor | reflexivity].
+  - destruct (g x) eqn:Eg.
+    + rewrite IH. split; [intro H; constructor; assumption | intro H; inversion H; assumption].
+    + split; [discriminate | intro H; inversion H; congruence].
+    + split; [discriminate | intro H; inversion H; congruence].
+Qed.
+
+(* ---------------------------------------------------------------------------------------- *)
+(* filteredTupleKeyIterator *)
+
+Section FilteredProofs.
+  Variable p : N -> bool.
+
+  Fixpoint flt_out (l : list ev) : list res :=
+    match l with
+    | [] => []
+    | Err e :: r => RErr e :: flt_out r
+    | Item x :: r => if p x then ROk x :: flt_out r else flt_out r
+    end.
+
+  Theorem flt_drains : forall l k once, drains_to (flt_next p) (mkOne (open_src l k) once) (flt_out l).
+  Proof.
+    induction l as [|e r IH]; intros k once.
+    - apply drains_done. reflexivity.
+    - destruct e as [x|c]; simpl.
+      + destruct (p x) eqn:Ep.
+        * eapply drains_step; [unfold flt_next; simpl; rewrite Ep; reflexivity|]. apply IH.
+        * eapply drains_same_step; [|apply (IH k once)]. unfold flt_next; simpl; rewrite Ep; reflexivity.
+      + eapply drains_step; [reflexivity|]. apply IH.
+  Qed.
+
+  Lemma flt_out_clean : forall xs, flt_out (map Item xs) = map ROk (filter p xs).
+  Proof. induction xs as [|x r IH]; simpl; [reflexivity|]. destruct (p x); simpl; now rewrite IH. Qed.
+
+  (* filter_spec *)
+  Theorem filter_spec : forall xs k once,
+    drains_to (flt_next p) (mkOne (open_src (map Item xs) k) once) (map ROk (filter p xs)).
+  Proof. intros. rewrite <- flt_out_clean. apply flt_drains. Qed.
+
+  Theorem flt_error_position : forall xs e r,
+    flt_out (map Item xs ++ Err e :: r) = map ROk (filter p xs) ++ RErr e :: flt_out r.
+  Proof. induction xs as [|x t IH]; intros; simpl; [reflexivity|]. destruct (p x); simpl; now rewrite IH. Qed.
+
+  Lemma flt_head_loop_props : forall l,
+    let '(r, l1) := flt_head_loop p l in
+    flt_head_loop p l1 = (r, l1) /\ fst (flt_next_loop p l1) = r /\ (l = [] -> l1 = []).
+  Proof.
+    induction l as [|e t IH]; simpl.
+    - auto.
+    - destruct e as [x|c]; simpl.
+      + destruct (p x) eqn:Ep.
+        * simpl. rewrite Ep. repeat split; auto; try (intro Hnil; discriminate Hnil).
+        * destruct (flt_head_loop p t) as [r l1]. destruct IH as [H1 [H2 _]].
+          repeat split; auto; try (intro Hnil; discriminate Hnil).
+      + repeat split; auto; try (intro Hnil; discriminate Hnil).
+  Qed.
+
+  Lemma flt_head_live : forall st,
+    live (o_src (snd (flt_head p st))) = snd (flt_head_loop p (live (o_src st))).
+  Proof.
+    intro st. unfold flt_head. pose proof (flt_head_loop_props (live (o_src st))) as P.
+    destruct (flt_head_loop p (live (o_src st))) as [r l1]. destruct P as [_ [_ P3]]. simpl.
+    rewrite live_put. unfold live in *. destruct (sstopped (o_src st)); [symmetry; now apply P3 | reflexivity].
+  Qed.
+  Theorem flt_head_idem : forall st, flt_head p (snd (flt_head p st)) = flt_head p st.
+  Proof.
+    intro st. pose proof (flt_head_live st) as HL. unfold flt_head at 1. rewrite HL. unfold flt_head.
+    pose proof (flt_head_loop_props (live (o_src st))) as P.
+    destruct (flt_head_loop p (live (o_src st))) as [r l1]. destruct P as [P1 _]. simpl. rewrite P1.
+    now rewrite put_put.
+  Qed.
+  Theorem flt_head_next_coherent : forall st, fst (flt_next p (snd (flt_head p st))) = fst (flt_head p st).
+  Proof.
+    intro st. pose proof (flt_head_live st) as HL. unfold flt_next. rewrite HL. unfold flt_head.
+    pose proof (flt_head_loop_props (live (o_src st))) as P.
+    destruct (flt_head_loop p (live (o_src st))) as [r l1]. destruct P as [_ [P2 _]]. simpl in *.
+    destruct (flt_next_loop p l1) as [r2 l2]. simpl in *. exact P2.
+  Qed.
+End FilteredProofs.
+
+(* ---------------------------------------------------------------------------------------- *)
+(* Validate *)
+
+Section ValidateProofs.
+  Variable vf : option (N -> verdict).
+
+  Fixpoint val_out (l : list ev) : list res :=
+    match l with
+    | [] => []
+    | Err e :: r => RErr e :: val_out r
+    | Item x :: r =>
+      match vverdict vf x with
+      | VPass => ROk x :: val_out r
+      | VReject => val_out r
+      | VErr e => RErr e :: val_out r
+      end
+    end.
+
+  Theorem val_drains : forall l k once, drains_to (val_next vf) (mkOne (open_src l k) once) (val_out l).
+  Proof.
+    induction l as [|e r IH]; intros k once.
+    - apply drains_done. reflexivity.
+    - destruct e as [x|c]; simpl.
+      + destruct (vverdict vf x) eqn:Ev.
+        * eapply drains_step; [unfold val_next; simpl; rewrite Ev; reflexivity|]. apply IH.
+        * eapply drains_same_step; [|apply (IH k once)]. unfold val_next; simpl; rewrite Ev; reflexivity.
+        * eapply drains_step; [unfold val_next; simpl; rewrite Ev; reflexivity|]. apply IH.
+      + eapply drains_step; [reflexivity|]. apply IH.
+  Qed.
+
+  (* validate_spec: valid items pass, invalid ones are skipped, a failing validation is reported
+     at the position of its item and consumes it *)
+  Definition val_item (x : N) : list res :=
+    match vverdict vf x with VPass => [ROk x] | VReject => [] | VErr e => [RErr e] end.
+  Lemma val_out_clean : forall xs, val_out (map Item xs) = flat_map val_item xs.
+  Proof.
+    induction xs as [|x r IH]; simpl; [reflexivity|]. unfold val_item at 1.
+    destruct (vverdict vf x); simpl; now rewrite IH.
+  Qed.
+  Theorem validate_spec : forall xs k once,
+    drains_to (val_next vf) (mkOne (open_src (map Item xs) k) once) (flat_map val_item xs).
+  Proof. intros. rewrite <- val_out_clean. apply val_drains. Qed.
+
+  Theorem val_error_position : forall xs e r,
+    val_out (map Item xs ++ Err e :: r) = flat_map val_item xs ++ RErr e :: val_out r.
+  Proof.
+    induction xs as [|x t IH]; intros; simpl; [reflexivity|]. unfold val_item at 1.
+    destruct (vverdict vf x); simpl; now rewrite IH.
+  Qed.
+
+  Lemma val_head_loop_props : forall l,
+    let '(r, l1) := val_head_loop vf l in
+    val_head_loop vf l1 = (r, l1) /\ fst (val_next_loop vf l1) = r /\ (l = [] -> l1 = []).
+  Proof.
+    induction l as [|e t IH]; simpl.
+    - auto.
+    - destruct e as [x|c]; simpl.
+      + destruct (vverdict vf x) eqn:Ev.
+        * simpl. rewrite Ev. repeat split; auto; try (intro Hnil; discriminate Hnil).
+        * destruct (val_head_loop vf t) as [r l1]. destruct IH as [H1 [H2 _]].
+          repeat split; auto; try (intro Hnil; discriminate Hnil).
+        * simpl. rewrite Ev. repeat split; auto; try (intro Hnil; discriminate Hnil).
+      + repeat split; auto; try (intro Hnil; discriminate Hnil).
+  Qed.
+  Lemma val_head_live : forall st,
+    live (o_src (snd (val_head vf st))) = snd (val_head_loop vf (live (o_src st))).
+  Proof.
+    intro st. unfold val_head. pose proof (val_head_loop_props (live (o_src st))) as P.
+    destruct (val_head_loop vf (live (o_src st))) as [r l1]. destruct P as [_ [_ P3]]. simpl.
+    rewrite live_put. unfold live in *. destruct (sstopped (o_src st)); [symmetry; now apply P3 | reflexivity].
+  Qed.
+  Theorem val_head_idem : forall st, val_head vf (snd (val_head vf st)) = val_head vf st.
+  Proof.
+    intro st. pose proof (val_head_live st) as HL. unfold val_head at 1. rewrite HL. unfold val_head.
+    pose proof (val_head_loop_props (live (o_src st))) as P.
+    destruct (val_head_loop vf (live (o_src st))) as [r l1]. destruct P as [P1 _]. simpl. rewrite P1.
+    now rewrite put_put.
+  Qed.
+  Theorem val_head_next_coherent : forall st, fst (val_next vf (snd (val_head vf st))) = fst (val_head vf st).
+  Proof.
+    intro st. pose proof (val_head_live st) as HL. unfold val_next. rewrite HL. unfold val_head.
+    pose proof (val_head_loop_props (live (o_src st))) as P.
+    destruct (val_head_loop vf (live (o_src st))) as [r l1]. destruct P as [_ [P2 _]]. simpl in *.
+    destruct (val_next_loop vf l1) as [r2 l2]. simpl in *. exact P2.
+  Qed.
+End ValidateProofs.
+
+(* one-inner adapters after Stop: the inner iterator shows no events any more *)
+Lemma one_stop_once_idem : forall st, one_stop_once (one_stop_once st) = one_stop_once st.
+Proof. intro st. unfold one_stop_once. destruct (o_once st) eqn:E; simpl; [now rewrite E | reflexivity]. Qed.
+Theorem flt_stop_then_done : forall p st, o_once st = false -> drains_to (flt_next p) (one_stop_once st) [].
+Proof. intros p st H. unfold one_stop_once. rewrite H. apply drains_done. reflexivity. Qed.
+Theorem val_stop_then_done : forall vf st, drains_to (val_next vf) (one_stop_always st) [].
+Proof. intros vf st. apply drains_done. reflexivity. Qed.
+
+(* ---------------------------------------------------------------------------------------- *)
+(* tupleKeyIterator and the mappers *)
+
+Section MappedProofs.
+  Variable g : N -> res.
+  Definition map_ev (e : ev) : res := match e with Item x => g x | Err c => RErr c end.
+
+  Theorem map_drains : forall l k once, wf l = true ->
+    drains_to (map_next g) (mkOne (open_src l k) once) (map map_ev l).
+  Proof.
+    induction l as [|e r IH]; intros k once Hwf.
+    - apply drains_done. reflexivity.
+    - simpl in Hwf. apply andb_true_iff in Hwf. destruct Hwf as [He Hr].
+      destruct e as [x|c]; simpl; (eapply drains_step; [reflexivity|]); apply IH; exact Hr.
+  Qed.
+  Theorem mapper_spec : forall xs k once,
+    drains_to (map_next g) (mkOne (open_src (map Item xs) k) once) (map g xs).
+  Proof.
+    intros xs k once. pose proof (map_drains (map Item xs) k once (clean_wf _ (clean_map_Item xs))) as H.
+    now rewrite map_map in H.
+  Qed.
+  Theorem map_head_next_coherent : forall st, fst (map_head g st) = fst (map_next g st).
+  Proof.
+    intro st. unfold map_head, map_next. rewrite src_head_next. destruct (src_next (o_src st)). reflexivity.
+  Qed.
+  Theorem map_head_idem : forall st, map_head g (snd (map_head g st)) = map_head g st.
+  Proof. reflexivity. Qed.
+  Theorem map_stop_then_done : forall st, o_once st = false -> drains_to (map_next g) (one_stop_once st) [].
+  Proof. intros st H. unfold one_stop_once. rewrite H. apply drains_done. reflexivity. Qed.
+End MappedProofs.
+
+(* ---------------------------------------------------------------------------------------- *)
+(* SkipTo *)
+
+(* skip_to_spec: exactly the leading items below the target are dropped; the iterator is left at
+   the first item >= target, at an error, or at its end; the only errors reported are those
+   that are neither "done" nor a cancellation *)
+Theorem skip_to_spec : forall target l,
+  exists dropped,
+    l = map Item dropped ++ snd (skip_to_loop target l)
+    /\ Forall (fun x => x < target) dropped
+    /\ match snd (skip_to_loop target l) with
+       | [] => fst (skip_to_loop target l) = RNil
+       | Item x :: _ => target <= x /\ fst (skip_to_loop target l) = RNil
+       | Err e :: _ => fst (skip_to_loop target l) = if done_or_cancelled e then RNil else RErr e
+       end.
+Proof.
+  intros target l. induction l as [|e r IH].
+  - exists []. simpl. auto.
+  - destruct e as [x|c]; simpl.
+    + destruct (target <=? x) eqn:E.
+      * exists []. simpl. repeat split; auto. now apply N.leb_le.
+      * destruct IH as [d [H1 [H2 H3]]]. exists (x :: d). simpl. repeat split.
+        -- now rewrite <- H1.
+        -- constructor; [now apply N.leb_gt | exact H2].
+        -- exact H3.
+    + exists []. simpl. auto.
+Qed.
+
+Lemma filter_all_true : forall (q : N -> bool) l, (forall y, In y l -> q y = true) -> filter q l = l.
+Proof.
+  induction l as [|y t IH]; intro H; simpl; [reflexivity|].
+  rewrite (H y (or_introl eq_refl)). f_equal. apply IH. intros z Hz. apply H. now right.
+Qed.
+
+Corollary skip_to_sorted : forall target xs, sortedN xs ->
+  snd (skip_to_loop target (map Item xs)) = map Item (filter (fun x => target <=? x) xs).
+Proof.
+  intros target xs Hs. induction xs as [|x r IH]; simpl; [reflexivity|].
+  inversion Hs as [|? ? Hs' Hall]; subst.
+  destruct (target <=? x) eqn:E; simpl.
+  - f_equal. rewrite Forall_forall in Hall. apply N.leb_le in E.
+    rewrite filter_all_true; [reflexivity|].
+    intros y Hy. apply N.leb_le. specialize (Hall y Hy). lia.
+  - apply IH. exact Hs'.
+Qed.
+
+(* ---------------------------------------------------------------------------------------- *)
+(* ToChannel *)
+Theorem to_channel_spec : forall xs, to_channel (map Item xs) = map ROk xs.
+Proof. induction xs as [|x r IH]; simpl; [reflexivity | now rewrite IH]. Qed.
+Theorem to_channel_error_position : forall xs e r,
+  to_channel (map Item xs ++ Err e :: r) =
+  map ROk xs ++ (if done_or_cancelled e then [] else RErr e :: to_channel r).
+Proof. induction xs as [|x t IH]; intros; simpl; [reflexivity | now rewrite IH]. Qed.
+
+(* ---------------------------------------------------------------------------------------- *)
+(* combinedIterator *)
+
+Lemma comb_empty_drains : forall n fin once, nexts comb_next n (mkComb [] fin once) = pad n [].
+Proof.
+  induction n as [|n IH]; intros fin once; simpl; [reflexivity|]. now rewrite IH.
+Qed.
+
+Lemma comb_next_skip_empty : forall k rest fin once,
+  comb_next (mkComb (open_src [] k :: rest) fin once)
+  = comb_next (mkComb rest (fin ++ [src_stop (open_src [] k)]) once).
+Proof.
+  intros k rest fin once. unfold comb_next. simpl.
+  destruct (comb_next_loop rest) as [[r2 p2] f2]. now rewrite <- app_assoc.
+Qed.
+
+(* combined_spec: the inputs one after the other; an inner error is passed on at its position
+   and the iteration goes on behind it *)
+Theorem comb_drains : forall ls l k fin once,
+  wf l = true -> forallb wf ls = true ->
+  drains_to comb_next (mkComb (open_src l k :: map src_of ls) fin once) (map ev_res (l ++ concat ls)).
+Proof.
+  induction ls as [|l2 ls IH].
+  - induction l as [|e r IHl]; intros k fin once Hl _.
+    + eapply drains_same_step; [apply comb_next_skip_empty|]. intro n. apply comb_empty_drains.
+    + simpl in Hl. apply andb_true_iff in Hl. destruct Hl as [He Hr]. simpl.
+      destruct e as [x|c]; simpl.
+      * eapply drains_step; [unfold comb_next; simpl; rewrite app_nil_r; reflexivity|]. now apply IHl.
+      * simpl in He. eapply drains_step.
+        -- unfold comb_next. simpl. rewrite (negb_true_iff _) in He. rewrite He. rewrite app_nil_r. reflexivity.
+        -- now apply IHl.
+  - induction l as [|e r IHl]; intros k fin once Hl Hls.
+    + simpl in Hls. apply andb_true_iff in Hls. destruct Hls as [Hl2 Hls].
+      eapply drains_same_step; [apply comb_next_skip_empty|]. simpl. apply IH; assumption.
+    + simpl in Hl. apply andb_true_iff in Hl. destruct Hl as [He Hr]. simpl.
+      destruct e as [x|c]; simpl.
+      * eapply drains_step; [unfold comb_next; simpl; rewrite app_nil_r; reflexivity|]. now apply IHl.
+      * simpl in He. eapply drains_step.
+        -- unfold comb_next. simpl. rewrite (negb_true_iff _) in He. rewrite He. rewrite app_nil_r. reflexivity.
+        -- now apply IHl.
+Qed.
+
+Theorem combined_spec : forall ls, forallb wf ls = true ->
+  drains_to comb_next (comb_init ls) (map ev_res (concat ls)).
+Proof.
+  intros ls H. unfold comb_init. destruct ls as [|l ls]; simpl.
+  - intro n. apply comb_empty_drains.
+  - simpl in H. apply andb_true_iff in H. destruct H as [Hl Hls]. now apply (comb_drains ls l 0 [] false).
+Qed.
+Corollary combined_clean : forall xss,
+  drains_to comb_next (comb_init (map (map Item) xss)) (map ROk (concat xss)).
+Proof.
+  intro xss.
+  assert (Hw : forallb wf (map (map Item) xss) = true).
+  { induction xss as [|xs r IH]; simpl; [reflexivity|]. rewrite (clean_wf _ (clean_map_Item xs)). exact IH. }
+  pose proof (combined_spec (map (map Item) xss) Hw) as H. replace (map ev_res (concat (map (map Item) xss))) with (map ROk (concat xss)) in H; [exact H|].
+  clear. induction xss as [|xs r IH]; simpl; [reflexivity|]. rewrite !map_app, IH. f_equal.
+  now rewrite map_map.
+Qed.
+
+Lemma comb_head_loop_props : forall p,
+  let '(r, p1, f1) := comb_head_loop p in
+  comb_head_loop p1 = (r, p1, []) /\ fst (fst (comb_next_loop p1)) = r.
+Proof.
+  induction p as [|s rest IH]; simpl; [auto|].
+  destruct (src_head s) as [v [e|]] eqn:Eh.
+  - destruct (is_done e) eqn:Ed.
+    + destruct (comb_head_loop rest) as [[r2 p2] f2]. exact IH.
+    + simpl. rewrite Eh, Ed. split; [reflexivity|].
+      rewrite src_head_next in Eh. destruct (src_next s) as [r' s1]. simpl in Eh. subst r'. now rewrite Ed.
+  - simpl. rewrite Eh. split; [reflexivity|].
+    rewrite src_head_next in Eh. destruct (src_next s) as [r' s1]. simpl in Eh. subst r'. reflexivity.
+Qed.
+Theorem comb_head_next_coherent : forall st, fst (comb_next (snd (comb_head st))) = fst (comb_head st).
+Proof.
+  intro st. unfold comb_head. pose proof (comb_head_loop_props (cb_pending st)) as P.
+  destruct (comb_head_loop (cb_pending st)) as [[r p1] f1]. destruct P as [_ P2]. simpl.
+  unfold comb_next. simpl. destruct (comb_next_loop p1) as [[r2 p2] f2]. exact P2.
+Qed.
+Theorem comb_head_idem : forall st, fst (comb_head (snd (comb_head st))) = fst (comb_head st).
+Proof.
+  intro st. unfold comb_head. pose proof (comb_head_loop_props (cb_pending st)) as P.
+  destruct (comb_head_loop (cb_pending st)) as [[r p1] f1]. destruct P as [P1 _]. simpl. now rewrite P1.
+Qed.
+Lemma comb_stop_idem : forall st, comb_stop (comb_stop st) = comb_stop st.
+Proof. intro st. unfold comb_stop. destruct (cb_once st) eqn:E; simpl; [now rewrite E | reflexivity]. Qed.
+
+Lemma comb_stopped_loop : forall p, fst (fst (comb_next_loop (map src_stop p))) = RDone
+                                    /\ snd (fst (comb_next_loop (map src_stop p))) = [].
+Proof.
+  induction p as [|s r IH]; simpl; [auto|].
+  destruct (comb_next_loop (map src_stop r)) as [[r2 p2] f2]. exact IH.
+Qed.
+Theorem comb_stop_then_done : forall st, cb_once st = false -> drains_to comb_next (comb_stop st) [].
+Proof.
+  intros st H. unfold comb_stop. rewrite H.
+  pose proof (comb_stopped_loop (cb_pending st)) as P.
+  intro n. destruct n as [|n]; [reflexivity|]. cbn [nexts]. unfold comb_next at 1. simpl.
+  destruct (comb_next_loop (map src_stop (cb_pending st))) as [[r2 p2] f2].
+  simpl in P. destruct P as [P1 P2]. subst. simpl. f_equal. apply comb_empty_drains.
+Qed.
+
+(* ---------------------------------------------------------------------------------------- *)
+(* FanInIteratorChannels *)
+
+Lemma take_nth_perm : forall A i (chans : list (list A)) a chans1,
+  take_nth i chans = Some (a, chans1) -> Permutation (concat chans) (a :: concat chans1).
+Proof.
+  intros A i. induction i as [|i IH]; intros chans a chans1 H.
+  - destruct chans as [|c r]; simpl in H; [discriminate|]. destruct c as [|b c1]; [discriminate|].
+    inversion H; subst. apply Permutation_refl.
+  - destruct chans as [|c r]; simpl in H; [discriminate|].
+    destruct (take_nth i r) as [[b r1]|] eqn:E; [|discriminate]. inversion H; subst.
+    simpl. apply IH in E. eapply Permutation_trans; [apply Permutation_app_head; exact E|].
+    apply Permutation_sym. apply Permutation_middle.
+Qed.
+
+(* fan_in_spec: for every schedule of the senders the receiver gets every message of every
+   channel exactly once *)
+Theorem fan_in_spec : forall A (sched : list nat) (chans : list (list A)),
+  Permutation (fan_in_sched chans sched) (concat chans).
+Proof.
+  intros A sched. induction sched as [|i r IH]; intro chans; simpl.
+  - apply Permutation_refl.
+  - destruct (take_nth i chans) as [[a chans1]|] eqn:E.
+    + apply take_nth_perm in E. eapply Permutation_trans; [apply perm_skip; apply IH|].
+      now apply Permutation_sym.
+    + apply IH.
+Qed.
+
+Lemma take_first_perm : forall a chans chans1,
+  take_first pair_eqb a chans = Some chans1 -> Permutation (concat chans) (a :: concat chans1).
+Proof.
+  intros a chans. induction chans as [|c r IH]; intros chans1 H; simpl in H; [discriminate|].
+  destruct c as [|b c1].
+  - destruct (take_first pair_eqb a r) as [r1|] eqn:E; [|discriminate]. inversion H; subst.
+    simpl. now apply IH.
+  - destruct (pair_eqb a b) eqn:Eb.
+    + inversion H; subst. unfold pair_eqb in Eb. apply andb_true_iff in Eb. destruct Eb as [E1 E2].
+      apply N.eqb_eq in E1, E2. destruct a, b; simpl in *; subst. apply Permutation_refl.
+    + destruct (take_first pair_eqb a r) as [r1|] eqn:E; [|discriminate]. inversion H; subst.
+      specialize (IH r1 eq_refl). change (concat ((b :: c1) :: r)) with ((b :: c1) ++ concat r).
+      change (concat ((b :: c1) :: r1)) with ((b :: c1) ++ concat r1).
+      eapply Permutation_trans; [apply Permutation_app_head; exact IH|].
+      apply Permutation_sym. apply Permutation_middle.
+Qed.
+(* the checker the oracle applies to the implementation's output is sound for the multiset spec *)
+Theorem is_interleaving_sound : forall out chans,
+  is_interleaving chans out = true -> Permutation out (concat chans).
+Proof.
+  induction out as [|a r IH]; intros chans H; simpl in H.
+  - assert (Hc : concat chans = []).
+    { induction chans as [|c t IHc]; simpl in *; [reflexivity|].
+      apply andb_true_iff in H. destruct H as [H1 H2]. destruct c; [auto | discriminate]. }
+    rewrite Hc. constructor.
+  - destruct (take_first pair_eqb a chans) as [chans1|] eqn:E; [|discriminate].
+    apply take_first_perm in E. apply IH in H.
+    eapply Permutation_trans; [apply perm_skip; exact H|]. now apply Permutation_sym.
+Qed.
+
+(* ---------------------------------------------------------------------------------------- *)
+(* OrderedCombinedIterator *)
+
+Section OrderedProofs.
+  Variable key : N -> N.
+
+  Definition le_key (a b : N) : Prop := key a <= key b.
+  Definition lt_key (a b : N) : Prop := key a < key b.
+  Definition ksorted (l : list N) : Prop := StronglySorted le_key l.
+
+  (* an error-free pending iterator: original index, items left, Stop calls so far *)
+  Definition pent := (N * list N * N)%type.
+  Definition p_items (e : pent) : list N := snd (fst e).
+  Definition mk (e : pent) : N * src := (fst (fst e), open_src (map Item (p_items e)) (snd e)).
+  Definition pitems (pl : list pent) : list N := flat_map p_items pl.
+
+  Fixpoint strip_k (ky : N) (l : list N) : list N :=
+    match l with
+    | x :: r => if key x =? ky then strip_k ky r else l
+    | [] => []
+    end.
+  Definition strip (ly : option N) (l : list N) : list N :=
+    match ly with None => l | Some y => strip_k (key y) l end.
+
+  Lemma skip_dups_items : forall ky l, skip_dups key ky (map Item l) = map Item (strip_k ky l).
+  Proof. induction l as [|x r IH]; simpl; [reflexivity|]. destruct (key x =? ky); [exact IH | reflexivity]. Qed.
+
+  Lemma strip_k_incl : forall ky l x, In x (strip_k ky l) -> In x l.
+  Proof.
+    induction l as [|a r IH]; simpl; intros x H; [exact H|].
+    destruct (key a =? ky); [right; now apply IH | exact H].
+  Qed.
+  Lemma strip_k_split : forall ky l x, In x l -> In x (strip_k ky l) \/ key x = ky.
+  Proof.
+    induction l as [|a r IH]; simpl; intros x H; [contradiction|].
+    destruct (key a =? ky) eqn:E.
+    - destruct H as [H|H]; [subst; right; now apply N.eqb_eq | now apply IH].
+    - left. exact H.
+  Qed.
+  Lemma strip_k_sorted : forall ky l, ksorted l -> ksorted (strip_k ky l).
+  Proof.
+    induction l as [|a r IH]; simpl; intro H; [exact H|].
+    destruct (key a =? ky); [apply IH; now inversion H | exact H].
+  Qed.
+  Lemma strip_k_head : forall ky l x t, strip_k ky l = x :: t -> key x <> ky.
+  Proof.
+    induction l as [|a r IH]; simpl; intros x t H; [discriminate|].
+    destruct (key a =? ky) eqn:E; [now apply (IH x t) | inversion H; subst; now apply N.eqb_neq].
+  Qed.
+  Lemma strip_incl : forall ly l x, In x (strip ly l) -> In x l.
+  Proof. intros [y|] l x H; simpl in H; [now apply strip_k_incl in H | exact H]. Qed.
+  Lemma strip_sorted : forall ly l, ksorted l -> ksorted (strip ly l).
+  Proof. intros [y|] l H; simpl; [now apply strip_k_sorted | exact H]. Qed.
+  Lemma length_strip_k : forall ky l, (length (strip_k ky l) <= length l)%nat.
+  Proof. induction l as [|a r IH]; simpl; [lia|]. destruct (key a =? ky); simpl; lia. Qed.
+  Lemma length_strip : forall ly l, (length (strip ly l) <= length l)%nat.
+  Proof. intros [y|] l; simpl; [apply length_strip_k | lia]. Qed.
+
+  Lemma ksorted_head_le : forall x t z, ksorted (x :: t) -> In z (x :: t) -> key x <= key z.
+  Proof.
+    intros x t z H Hz. inversion H as [|? ? _ Hall]; subst. destruct Hz as [Hz|Hz]; [subst; lia|].
+    rewrite Forall_forall in Hall. exact (Hall z Hz).
+  Qed.
+
+  (* after stripping, everything left lies strictly above the last yielded key *)
+  Lemma strip_gt : forall y l x, ksorted l -> (forall z, In z l -> key y <= key z) ->
+    In x (strip (Some y) l) -> key y < key x.
+  Proof.
+    intros y l x Hs Hb Hx. simpl in Hx. destruct (strip_k (key y) l) as [|h t] eqn:E; [contradiction|].
+    pose proof (strip_k_head _ _ _ _ E) as Hne.
+    pose proof (strip_k_sorted (key y) l Hs) as Hs'. rewrite E in Hs'.
+    pose proof (ksorted_head_le h t x Hs' Hx) as H1.
+    assert (Hh : In h l) by (apply (strip_k_incl (key y)); rewrite E; now left).
+    specialize (Hb h Hh). lia.
+  Qed.
+
+  Definition bounded (ly : option N) (l : list N) : Prop :=
+    match ly with Some y => forall z, In z l -> key y <= key z | None => True end.
+
+  Lemma prep1_sorted : forall ly l k, bounded ly l ->
+    match strip ly l with
+    | [] => exists s1, prep1 key ly (open_src (map Item l) k) = PDone s1
+    | x1 :: t1 => prep1 key ly (open_src (map Item l) k) = PItem x1 (open_src (map Item (x1 :: t1)) k)
+    end.
+  Proof.
+    intros ly l k Hb. destruct l as [|x t].
+    - destruct ly; simpl; eexists; reflexivity.
+    - destruct ly as [y|]; [|reflexivity].
+      assert (Hx : key x <? key y = false) by (apply N.ltb_ge; apply Hb; now left).
+      unfold prep1. cbn [live open_src sstopped evs map]. rewrite Hx.
+      change (Item x :: map Item t) with (map Item (x :: t)). rewrite skip_dups_items.
+      unfold strip. destruct (strip_k (key y) (x :: t)) as [|x1 t1]; simpl; [eexists; reflexivity | reflexivity].
+  Qed.
+
+  Definition nonempty (e : pent) : bool := match p_items e with [] => false | _ => true end.
+  Definition strip_ent (ly : option N) (e : pent) : pent := (fst (fst e), strip ly (p_items e), snd e).
+  Definition kept_of (ly : option N) (pl : list pent) : list pent := filter nonempty (map (strip_ent ly) pl).
+
+  Fixpoint pbest (kept : list pent) : option (nat * N) :=
+    match kept with
+    | [] => None
+    | e :: r => match p_items e with x :: _ => better key x (pbest r) | [] => pbest r end
+    end.
+
+  Lemma oc_scan_sorted : forall ly pl,
+    Forall (fun e => bounded ly (p_items e)) pl ->
+    exists f, oc_scan key ly (map mk pl) = SOk (map mk (kept_of ly pl)) f (pbest (kept_of ly pl)).
+  Proof.
+    intros ly pl. induction pl as [|e r IH]; intro Hb.
+    - exists []. reflexivity.
+    - inversion Hb as [|? ? Hbe Hbr]; subst. destruct (IH Hbr) as [f Hf]. clear IH.
+      destruct e as [[i l] k].
+      change (kept_of ly ((i, l, k) :: r))
+        with (if nonempty (strip_ent ly (i, l, k)) then strip_ent ly (i, l, k) :: kept_of ly r else kept_of ly r).
+      assert (Hne : nonempty (strip_ent ly (i, l, k)) = match strip ly l with [] => false | _ => true end) by reflexivity.
+      assert (Hse : strip_ent ly (i, l, k) = (i, strip ly l, k)) by reflexivity.
+      rewrite Hne, Hse. clear Hne Hse.
+      pose proof (prep1_sorted ly l k Hbe) as P.
+      change (map mk ((i, l, k) :: r)) with ((i, open_src (map Item l) k) :: map mk r).
+      cbn [oc_scan].
+      destruct (strip ly l) as [|x1 t1] eqn:Es.
+      + destruct P as [s1 P]. rewrite P, Hf. eexists. reflexivity.
+      + rewrite P, Hf. eexists. reflexivity.
+  Qed.
+
+  Definition head_ge (kb : N) (e : pent) : Prop :=
+    match p_items e with h :: _ => kb <= key h | [] => True end.
+
+  Lemma pbest_spec : forall kept, Forall (fun e => nonempty e = true) kept ->
+    match pbest kept with
+    | None => kept = []
+    | Some (j, kb) => exists i x t k, nth_error kept j = Some (i, x :: t, k) /\ key x = kb
+                                      /\ Forall (head_ge kb) kept
+    end.
+  Proof.
+    induction kept as [|e r IH]; intro Hne; [reflexivity|].
+    inversion Hne as [|? ? He Hr]; subst. specialize (IH Hr).
+    destruct e as [[i l] k]. unfold nonempty in He. cbn [p_items fst snd] in He.
+    destruct l as [|x t]; [discriminate|]. cbn [pbest p_items fst snd].
+    destruct (pbest r) as [[j kb]|].
+    - destruct IH as [i' [x' [t' [k' [Hn [Hk Hall]]]]]]. unfold better.
+      destruct (kb <? key x) eqn:E.
+      + exists i', x', t', k'. repeat split; auto. constructor; [|exact Hall].
+        unfold head_ge. simpl. apply N.ltb_lt in E. lia.
+      + exists i, x, t, k. repeat split; auto. apply N.ltb_ge in E. constructor.
+        * unfold head_ge. simpl. lia.
+        * eapply Forall_impl; [|exact Hall]. intros a Ha. unfold head_ge in *.
+          destruct (p_items a); [exact I | lia].
+    - subst r. exists i, x, t, k. repeat split; auto. constructor; [|constructor].
+      unfold head_ge. simpl. lia.
+  Qed.
+
+  Fixpoint set_at {A} (n : nat) (l : list A) (a : A) : list A :=
+    match l, n with
+    | [], _ => []
+    | _ :: r, O => a :: r
+    | b :: r, S m => b :: set_at m r a
+    end.
+
+  Lemma upd_nth_mk : forall j kept i x t k,
+    nth_error kept j = Some (i, x :: t, k) ->
+    upd_nth j (map mk kept) (fun p => (fst p, snd (src_next (snd p)))) = map mk (set_at j kept (i, t, k)).
+  Proof.
+    induction j as [|j IH]; intros kept i x t k H; destruct kept as [|e r]; simpl in H; try discriminate.
+    - inversion H; subst. reflexivity.
+    - simpl. f_equal. now apply (IH r i x t k).
+  Qed.
+  Lemma nth_error_mk : forall j kept i x t k,
+    nth_error kept j = Some (i, x :: t, k) ->
+    nth_error (map mk kept) j = Some (i, open_src (map Item (x :: t)) k).
+  Proof.
+    induction j as [|j IH]; intros kept i x t k H; destruct kept as [|e r]; simpl in H; try discriminate.
+    - inversion H; subst. reflexivity.
+    - simpl. now apply (IH r i x t k).
+  Qed.
+
+  Lemma pitems_set_at : forall j kept i x t k z,
+    nth_error kept j = Some (i, x :: t, k) ->
+    In z (pitems kept) <-> z = x \/ In z (pitems (set_at j kept (i, t, k))).
+  Proof.
+    induction j as [|j IH]; intros kept i x t k z H; destruct kept as [|e r]; simpl in H; try discriminate.
+    - inversion H; subst.
+      change (pitems ((i, x :: t, k) :: r)) with ((x :: t) ++ pitems r).
+      change (pitems (set_at 0 ((i, x :: t, k) :: r) (i, t, k))) with (t ++ pitems r).
+      rewrite !in_app_iff. simpl. intuition (subst; auto).
+    - change (pitems (e :: r)) with (p_items e ++ pitems r).
+      change (pitems (set_at (S j) (e :: r) (i, t, k))) with (p_items e ++ pitems (set_at j r (i, t, k))).
+      rewrite !in_app_iff. rewrite (IH r i x t k z H). tauto.
+  Qed.
+  Lemma length_pitems_set_at : forall j kept i x t k,
+    nth_error kept j = Some (i, x :: t, k) ->
+    length (pitems kept) = S (length (pitems (set_at j kept (i, t, k)))).
+  Proof.
+    induction j as [|j IH]; intros kept i x t k H; destruct kept as [|e r]; simpl in H; try discriminate.
+    - inversion H; subst.
+      change (pitems ((i, x :: t, k) :: r)) with ((x :: t) ++ pitems r).
+      change (pitems (set_at 0 ((i, x :: t, k) :: r) (i, t, k))) with (t ++ pitems r).
+      reflexivity.
+    - change (pitems (e :: r)) with (p_items e ++ pitems r).
+      change (pitems (set_at (S j) (e :: r) (i, t, k))) with (p_items e ++ pitems (set_at j r (i, t, k))).
+      rewrite !app_length. rewrite (IH r i x t k H). lia.
+  Qed.
+
+  Lemma pitems_cons : forall e r, pitems (e :: r) = p_items e ++ pitems r.
+  Proof. reflexivity. Qed.
+  Lemma kept_of_cons : forall ly e r,
+    kept_of ly (e :: r) = if nonempty (strip_ent ly e) then strip_ent ly e :: kept_of ly r else kept_of ly r.
+  Proof. reflexivity. Qed.
+  Lemma p_items_strip_ent : forall ly e, p_items (strip_ent ly e) = strip ly (p_items e).
+  Proof. reflexivity. Qed.
+  Lemma nonempty_false : forall e, nonempty e = false -> p_items e = [].
+  Proof. intros e H. unfold nonempty in H. destruct (p_items e); [reflexivity | discriminate]. Qed.
+
+  Lemma pitems_kept_incl : forall ly pl z, In z (pitems (kept_of ly pl)) -> In z (pitems pl).
+  Proof.
+    intros ly pl z. induction pl as [|e r IH]; [auto|].
+    rewrite kept_of_cons, pitems_cons, in_app_iff. destruct (nonempty (strip_ent ly e)) eqn:En.
+    - rewrite pitems_cons, in_app_iff, p_items_strip_ent. intros [H|H].
+      + left. now apply strip_incl in H.
+      + right. now apply IH.
+    - intro H. right. now apply IH.
+  Qed.
+  Lemma pitems_kept_split : forall ly pl z, In z (pitems pl) ->
+    In z (pitems (kept_of ly pl)) \/ exists y, ly = Some y /\ key z = key y.
+  Proof.
+    intros ly pl z. induction pl as [|e r IH]; [auto|].
+    rewrite pitems_cons, in_app_iff, kept_of_cons. intros [H|H].
+    - assert (Hs : In z (strip ly (p_items e)) \/ exists y, ly = Some y /\ key z = key y).
+      { destruct ly as [y|]; [|now left]. simpl.
+        destruct (strip_k_split (key y) (p_items e) z H) as [Hs|Hs]; [now left | right; eauto]. }
+      destruct Hs as [Hs|Hs]; [|now right]. left.
+      destruct (nonempty (strip_ent ly e)) eqn:En.
+      + rewrite pitems_cons, in_app_iff, p_items_strip_ent. now left.
+      + apply nonempty_false in En. rewrite p_items_strip_ent in En. rewrite En in Hs. contradiction.
+    - destruct (IH H) as [Hk|Hk]; [|now right]. left.
+      destruct (nonempty (strip_ent ly e)); [|exact Hk]. rewrite pitems_cons, in_app_iff. now right.
+  Qed.
+  Lemma length_pitems_kept : forall ly pl, (length (pitems (kept_of ly pl)) <= length (pitems pl))%nat.
+  Proof.
+    intros ly pl. induction pl as [|e r IH]; [simpl; lia|].
+    rewrite kept_of_cons, pitems_cons, app_length.
+    pose proof (length_strip ly (p_items e)) as Hl.
+    destruct (nonempty (strip_ent ly e)).
+    - rewrite pitems_cons, app_length, p_items_strip_ent. lia.
+    - lia.
+  Qed.
+  Lemma kept_nonempty : forall ly pl, Forall (fun e => nonempty e = true) (kept_of ly pl).
+  Proof. intros ly pl. unfold kept_of. apply Forall_forall. intros e He. apply filter_In in He. tauto. Qed.
+  Lemma kept_sorted : forall ly pl, Forall (fun e => ksorted (p_items e)) pl ->
+    Forall (fun e => ksorted (p_items e)) (kept_of ly pl).
+  Proof.
+    intros ly pl H. unfold kept_of. apply Forall_forall. intros e He. apply filter_In in He.
+    destruct He as [He _]. apply in_map_iff in He. destruct He as [e0 [He0 Hin]]. subst e.
+    rewrite Forall_forall in H. unfold strip_ent, p_items. simpl. apply strip_sorted. exact (H e0 Hin).
+  Qed.
+  Lemma kept_gt : forall y pl z,
+    Forall (fun e => ksorted (p_items e)) pl -> Forall (fun e => bounded (Some y) (p_items e)) pl ->
+    In z (pitems (kept_of (Some y) pl)) -> key y < key z.
+  Proof.
+    intros y pl z Hs Hb. induction pl as [|e r IH]; [intro H; contradiction|].
+    inversion Hs; subst. inversion Hb; subst. rewrite kept_of_cons.
+    destruct (nonempty (strip_ent (Some y) e)).
+    - rewrite pitems_cons, in_app_iff, p_items_strip_ent. intros [H|H]; [|now apply IH].
+      eapply (strip_gt y (p_items e)); eauto.
+    - now apply IH.
+  Qed.
+
+  Lemma oc_empty_drains : forall n fin lh ly once,
+    lh = None -> nexts (oc_next key) n (mkOc [] fin lh ly once) = pad n [].
+  Proof.
+    induction n as [|n IH]; intros fin lh ly once Hl; simpl; [reflexivity|]. subst. now rewrite IH.
+  Qed.
+
+  Lemma set_at_sorted : forall j kept i x t k,
+    nth_error kept j = Some (i, x :: t, k) ->
+    Forall (fun e => ksorted (p_items e)) kept ->
+    Forall (fun e => ksorted (p_items e)) (set_at j kept (i, t, k)).
+  Proof.
+    induction j as [|j IH]; intros kept i x t k H Hs; destruct kept as [|e r]; simpl in H; try discriminate.
+    - inversion H; subst. inversion Hs as [|? ? H1 H2]; subst. constructor; [|exact H2].
+      unfold p_items in *. simpl in *. now inversion H1.
+    - inversion Hs; subst. simpl. constructor; [assumption | now apply (IH r i x t k)].
+  Qed.
+
+  (* all remaining items lie at or above the chosen minimum *)
+  Lemma min_bounds_all : forall kept kb, Forall (fun e => ksorted (p_items e)) kept ->
+    Forall (head_ge kb) kept -> forall z, In z (pitems kept) -> kb <= key z.
+  Proof.
+    induction kept as [|e r IH]; intros kb Hs Hh z Hz; [contradiction|].
+    inversion Hs; subst. inversion Hh; subst. unfold pitems in Hz. simpl in Hz. apply in_app_iff in Hz.
+    destruct Hz as [Hz|Hz]; [|now apply (IH kb)].
+    unfold head_ge in *. destruct (p_items e) as [|h t] eqn:Ep; [contradiction|].
+    pose proof (ksorted_head_le h t z ltac:(assumption) Hz). lia.
+  Qed.
+
+  Definition bounded_all (ly : option N) (pl : list pent) : Prop :=
+    Forall (fun e => bounded ly (p_items e)) pl.
+  Lemma bounded_all_of : forall y pl, (forall z, In z (pitems pl) -> key y <= key z) -> bounded_all (Some y) pl.
+  Proof.
+    intros y pl H. apply Forall_forall. intros e He z Hz. apply H. unfold pitems. apply in_flat_map. eauto.
+  Qed.
+
+  Lemma ordered_run : forall m pl ly fin,
+    (length (pitems pl) <= m)%nat ->
+    Forall (fun e => ksorted (p_items e)) pl -> bounded_all ly pl ->
+    exists out,
+      drains_to (oc_next key) (mkOc (map mk pl) fin None ly false) (map ROk out)
+      /\ StronglySorted lt_key out
+      /\ (forall y o, ly = Some y -> In o out -> key y < key o)
+      /\ incl out (pitems pl)
+      /\ (forall z, In z (pitems pl) -> (exists y, ly = Some y /\ key z = key y) \/ exists o, In o out /\ key o = key z).
+  Proof.
+    induction m as [|m IH]; intros pl ly fin Hm Hs Hb.
+    - (* nothing left at all *)
+      assert (Hnil : pitems pl = []) by (destruct (pitems pl); [reflexivity | simpl in Hm; lia]).
+      exists []. destruct (oc_scan_sorted ly pl Hb) as [f Hf].
+      assert (Hk : kept_of ly pl = []).
+      { pose proof (length_pitems_kept ly pl) as Hl. rewrite Hnil in Hl. simpl in Hl.
+        pose proof (kept_nonempty ly pl) as Hne. destruct (kept_of ly pl) as [|e r]; [reflexivity|].
+        inversion Hne as [|? ? He _]; subst. unfold nonempty in He. unfold pitems in Hl. simpl in Hl.
+        destruct (p_items e); [discriminate | simpl in Hl; lia]. }
+      rewrite Hk in Hf. simpl in Hf. repeat split.
+      + intro n. destruct n as [|n]; [reflexivity|]. cbn [nexts]. unfold oc_next at 1. cbn [oc_lastYielded oc_pending].
+        rewrite Hf. cbn. f_equal. now apply oc_empty_drains.
+      + constructor.
+      + intros y o _ H. contradiction.
+      + intros o H. contradiction.
+      + intros z Hz. rewrite Hnil in Hz. contradiction.
+    - destruct (oc_scan_sorted ly pl Hb) as [f Hf].
+      pose proof (pbest_spec (kept_of ly pl) (kept_nonempty ly pl)) as Pb.
+      destruct (pbest (kept_of ly pl)) as [[j kb]|] eqn:Eb.
+      + destruct Pb as [i [x [t [k [Hn [Hkx Hmin]]]]]].
+        set (kept := kept_of ly pl) in *.
+        set (kept1 := set_at j kept (i, t, k)).
+        pose proof (kept_sorted ly pl Hs) as Hks. fold kept in Hks.
+        pose proof (min_bounds_all kept kb Hks Hmin) as Hall.
+        assert (Hlen : (length (pitems kept1) <= m)%nat).
+        { pose proof (length_pitems_set_at j kept i x t k Hn) as H1.
+          pose proof (length_pitems_kept ly pl) as H2. fold kept in H2. unfold kept1.
+          rewrite H1 in H2. apply le_S_n. eapply Nat.le_trans; [exact H2 | exact Hm]. }
+        assert (Hs1 : Forall (fun e => ksorted (p_items e)) kept1) by (apply (set_at_sorted j kept i x t k Hn Hks)).
+        assert (Hb1 : bounded_all (Some x) kept1).
+        { apply bounded_all_of. intros z Hz. rewrite Hkx. apply Hall.
+          apply (pitems_set_at j kept i x t k z Hn). now right. }
+        destruct (IH kept1 (Some x) (fin ++ f) Hlen Hs1 Hb1) as [out1 [D1 [S1 [G1 [I1 C1]]]]].
+        assert (Hxin : In x (pitems kept)) by (apply (pitems_set_at j kept i x t k x Hn); now left).
+        exists (x :: out1). repeat split.
+        * eapply drains_step; [|exact D1].
+          unfold oc_next. cbn [oc_lastYielded oc_pending oc_fin oc_lastHead oc_once]. rewrite Hf.
+          rewrite (nth_error_mk j kept i x t k Hn). cbn [src_next live open_src sstopped evs map evs_next].
+          rewrite (upd_nth_mk j kept i x t k Hn). reflexivity.
+        * constructor; [exact S1|]. apply Forall_forall. intros o Ho. apply (G1 x o eq_refl Ho).
+        * intros y o Hy [Ho|Ho].
+          -- subst o. subst ly. apply (kept_gt y pl x Hs Hb). exact Hxin.
+          -- subst ly. pose proof (kept_gt y pl x Hs Hb Hxin) as H1. pose proof (G1 x o eq_refl Ho) as H2.
+             unfold lt_key in *. lia.
+        * intros o [Ho|Ho].
+          -- subst o. apply (pitems_kept_incl ly pl). exact Hxin.
+          -- apply (pitems_kept_incl ly pl). apply (pitems_set_at j kept i x t k o Hn). right. now apply I1.
+        * intros z Hz. destruct (pitems_kept_split ly pl z Hz) as [Hk|Hk]; [|now left]. right.
+          fold kept in Hk. apply (pitems_set_at j kept i x t k z Hn) in Hk. destruct Hk as [Hk|Hk].
+          -- subst z. exists x. split; [now left | reflexivity].
+          -- destruct (C1 z Hk) as [[y [Hy Hyz]]|[o [Ho Hoz]]].
+             ++ inversion Hy; subst y. exists x. split; [now left | now symmetry].
+             ++ exists o. split; [now right | exact Hoz].
+      + (* every pending iterator is exhausted (or holds duplicates of the last key only) *)
+        rewrite Pb in Hf. simpl in Hf. exists []. repeat split.
+        * intro n. destruct n as [|n]; [reflexivity|]. cbn [nexts]. unfold oc_next at 1.
+          cbn [oc_lastYielded oc_pending]. rewrite Hf. cbn. f_equal. now apply oc_empty_drains.
+        * constructor.
+        * intros y o _ H. contradiction.
+        * intros o H. contradiction.
+        * intros z Hz. destruct (pitems_kept_split ly pl z Hz) as [Hk|Hk]; [|now left].
+          rewrite Pb in Hk. contradiction.
+  Qed.
+
+  (* ordered_combined_spec: for inputs that are sorted by the mapper, the iterator yields items
+     of the inputs with strictly ascending keys (hence no duplicate key), and every key of the
+     inputs is represented; in particular no "not ascending" error is raised *)
+  Theorem ordered_combined_spec : forall xss,
+    Forall ksorted xss ->
+    exists out,
+      drains_to (oc_next key) (oc_init (map (map Item) xss)) (map ROk out)
+      /\ StronglySorted lt_key out
+      /\ incl out (concat xss)
+      /\ (forall z, In z (concat xss) -> exists o, In o out /\ key o = key z).
+  Proof.
+    intros xss Hs.
+    assert (G : forall i0, exists pl : list pent,
+              index_from i0 (map (map Item) xss) = map mk pl /\ pitems pl = concat xss
+              /\ Forall (fun e => ksorted (p_items e)) pl).
+    { induction xss as [|xs r IH]; intro i0.
+      - exists []. repeat split. constructor.
+      - inversion Hs as [|? ? H1 H2]; subst. destruct (IH H2 (i0 + 1)) as [pl [E1 [E2 E3]]].
+        exists ((i0, xs, 0) :: pl). simpl. rewrite E1. repeat split.
+        + unfold pitems in *. simpl. now rewrite E2.
+        + constructor; assumption. }
+    destruct (G 0) as [pl [E1 [E2 E3]]]. unfold oc_init. rewrite E1.
+    assert (Hb : bounded_all None pl) by (apply Forall_forall; intros e _; exact I).
+    destruct (ordered_run (length (pitems pl)) pl None [] (le_n _) E3 Hb) as [out [D [S [_ [Inc C]]]]].
+    exists out. rewrite <- E2. repeat split; auto.
+    intros z Hz. destruct (C z Hz) as [[y [Hy _]]|H]; [discriminate | exact H].
+  Qed.
+  (* Head shows exactly what Next would return from the same state (any inputs, sorted or not) *)
+  Theorem oc_head_shows_next : forall st, oc_lastHead st = None ->
+    fst (oc_head key st) = fst (oc_next key st).
+  Proof.
+    intros st Hl. unfold oc_head, oc_next. rewrite Hl.
+    destruct (oc_scan key (oc_lastYielded st) (oc_pending st)) as [k f [[j kb]|]|e k f]; try reflexivity.
+    destruct (nth_error k j) as [[i s]|]; [|reflexivity].
+    rewrite src_head_next. destruct (src_next s) as [[v e] s1]. simpl.
+    destruct v as [x|]; destruct e as [c|]; reflexivity.
+  Qed.
+  (* a cached head is returned again without touching anything *)
+  Theorem oc_head_cached : forall st h, oc_lastHead st = Some h -> oc_head key st = (ROk h, st).
+  Proof. intros st h H. unfold oc_head. now rewrite H. Qed.
+
+  Lemma strip_k_idem : forall ky l, strip_k ky (strip_k ky l) = strip_k ky l.
+  Proof.
+    induction l as [|x r IH]; simpl; [reflexivity|].
+    destruct (key x =? ky) eqn:E; [exact IH | simpl; now rewrite E].
+  Qed.
+  Lemma strip_ent_idem : forall ly e, strip_ent ly (strip_ent ly e) = strip_ent ly e.
+  Proof.
+    intros ly [[i l] k]. unfold strip_ent, p_items. simpl. destruct ly as [y|]; simpl; [|reflexivity].
+    now rewrite strip_k_idem.
+  Qed.
+  Lemma kept_of_idem : forall ly pl, kept_of ly (kept_of ly pl) = kept_of ly pl.
+  Proof.
+    intros ly pl. induction pl as [|e r IH]; [reflexivity|].
+    rewrite kept_of_cons. destruct (nonempty (strip_ent ly e)) eqn:En; [|exact IH].
+    rewrite kept_of_cons, strip_ent_idem, En. now rewrite IH.
+  Qed.
+  Lemma kept_bounded : forall ly pl, bounded_all ly pl -> bounded_all ly (kept_of ly pl).
+  Proof.
+    intros ly pl H. unfold bounded_all, kept_of in *. apply Forall_forall. intros e He.
+    apply filter_In in He. destruct He as [He _]. apply in_map_iff in He. destruct He as [e0 [He0 Hin]].
+    subst e. rewrite Forall_forall in H. specialize (H e0 Hin). rewrite p_items_strip_ent.
+    destruct ly as [y|]; [|exact I]. intros z Hz. apply H. now apply strip_incl in Hz.
+  Qed.
+
+  (* Head/Next coherence on sorted error-free inputs: the Next after a Head returns the item
+     (or ErrIteratorDone) that Head showed *)
+  Theorem oc_head_then_next_sorted : forall pl ly fin,
+    bounded_all ly pl ->
+    let st := mkOc (map mk pl) fin None ly false in
+    fst (oc_next key (snd (oc_head key st))) = fst (oc_head key st).
+  Proof.
+    intros pl ly fin Hb st. unfold st. clear st.
+    destruct (oc_scan_sorted ly pl Hb) as [f Hf].
+    destruct (oc_scan_sorted ly (kept_of ly pl) (kept_bounded ly pl Hb)) as [f2 Hf2].
+    rewrite kept_of_idem in Hf2.
+    pose proof (pbest_spec (kept_of ly pl) (kept_nonempty ly pl)) as Pb.
+    unfold oc_head. cbn [oc_lastHead oc_lastYielded oc_pending oc_fin oc_once]. rewrite Hf.
+    destruct (pbest (kept_of ly pl)) as [[j kb]|] eqn:Eb.
+    - destruct Pb as [i [x [t [k [Hn _]]]]]. rewrite (nth_error_mk j _ i x t k Hn).
+      cbn [src_head live open_src sstopped evs map evs_head fst snd ROk].
+      unfold oc_next. cbn [oc_lastHead oc_lastYielded oc_pending oc_fin oc_once].
+      try rewrite Eb in Hf2. rewrite Hf2.
+      rewrite (nth_error_mk j _ i x t k Hn). reflexivity.
+    - rewrite Pb in *. simpl. unfold oc_next. simpl. reflexivity.
+  Qed.
+End OrderedProofs.
+
+(* the ascending check is sound but not complete: an unsorted input whose out-of-order item
+   follows a duplicate of the last yielded key is not detected (the code compares only the
+   first head it sees with the last yielded value, not the head it finds after skipping) *)
+Example ordered_unsorted_undetected :
+  nexts (oc_next (fun x => x)) 4 (oc_init [[Item 1; Item 2]; [Item 2; Item 1]])
+  = [ROk 1; ROk 2; ROk 1; RDone].
+Proof. vm_compute. reflexivity. Qed.
+Example ordered_unsorted_detected :
+  nexts (oc_next (fun x => x)) 2 (oc_init [[Item 2; Item 1]]) = [ROk 2; RErr ENotAscending].
+Proof. vm_compute. reflexivity. Qed.
+(* and on such an input Head can show an item whose Next is the error *)
+Example ordered_unsorted_head_next :
+  fst (run (oc_next (fun x => x / 8)) (oc_head (fun x => x / 8)) oc_stop [ONext; OHead; ONext]
+           (oc_init [[Item 17; Item 17; Item 9]]))
+  = [ROk 17; ROk 9; RErr ENotAscending].
+Proof. vm_compute. reflexivity. Qed.
+Lemma oc_stop_idem : forall st, oc_stop (oc_stop st) = oc_stop st.
+Proof. intro st. unfold oc_stop. destruct (oc_once st) eqn:E; simpl; [now rewrite E | reflexivity]. Qed.
